@@ -239,5 +239,7 @@ def run(ctx):
         c06a(ctx, tu)
         c06b(ctx, tu)
         c06c(ctx, tu)
+        from rules import C03
+        C03.c03b_carry(ctx, tu)    # "reached its lower bound" is read off the limits: IN_SEQUENCE must keep them
         units.append({"unit": tu.name, "functions": len(tu.fns)})
     ctx.extra["units"] = units
